@@ -17,16 +17,16 @@ from vf.model.schema import standard_schema
 from vf.xlate import BACKENDS, translate
 
 RULE = (
-    "case = (back end, generated fault-free query biased to state-carrying constructs: vector / 2-D columns, accumulators, event-level "
+    "case = (back end, generated query biased to state-carrying constructs: vector / 2-D columns, accumulators, event-level "
     "Where, Range; 5-8 generated events; drawn schedules: 2 permutations, each event alone in a fresh process, a split into two "
-    "processes, the list twice in one process). Oracle: per-event row lists identical across all schedules. non-trivial = >=3 events "
+    "processes, the list twice in one process). Oracle: what an event does (its rows, or ending the job where the query is undefined on it) is the same in every schedule as alone in a fresh process. non-trivial = >=3 events "
     "with pairwise different rows AND the emitted code has a vector column, accumulator or first-flag AND >=2 non-identity schedules; "
     "distinct by query text."
 )
 
 
 def features():
-    # First() is generated; events hold at least one element per collection so that it rarely faults (a faulting case is discarded)
+    # First() is generated
     return Features(first=True, index=False, nullable=False)
 
 
@@ -38,14 +38,42 @@ def case_strategy(backend):
     # an opaque user C++ function that keeps its OWN state would be the user's business; ours are pure, so any
     # schedule dependence still comes from the translator
     @st.composite
+    def partial_cases(draw):
+        """a row with vector columns and a First() that is undefined on some events (C04's templates): such an event ends the job, and
+        nothing it had pushed may show up in the rows of the events that follow in a new job - nor may it silently be skipped"""
+        from vf.props.C04 import G
+        from vf.gen.query import Query, dataset_text
+
+        g = G(draw, backend)
+        cols = []
+        for _ in range(draw(st.integers(1, 2))):
+            sq, ms = g.seq("e", main_only=True)
+            m = draw(st.sampled_from(ms))
+            cols.append(draw(st.sampled_from([f"{sq}.Select(lambda v: v.{m}())", f"{sq}.Select(lambda v: v.{m}())", f"{sq}.Count()", f"{sq}.Select(lambda v: v.{m}()).Sum()"])))
+        g.want = draw(st.sampled_from(["unguarded", "unguarded", None]))
+        first = g.first_template("e")[0]
+        cols.insert(draw(st.integers(0, len(cols))), first)
+        text = f"Select({dataset_text(sch)}, lambda e: ({', '.join(cols)}))"
+        q = Query(text, backend, [], list(g.uses), set(g.labels) | {"vector+partial-row"}, 3)
+        evs = draw(events_strategy(sch, g.uses, n_min=5, n_max=8, null_links=False, min_size=0))
+        n = len(evs)
+        perms = [draw(st.permutations(list(range(n)))) for _ in range(2)]
+        cut = draw(st.integers(1, n - 1))
+        return q, evs, perms, cut
+
+    @st.composite
     def cases(draw):
+        if draw(st.integers(0, 4)) == 0:
+            return draw(partial_cases())
         use_funcs = draw(st.booleans())
         feat = features()
         if use_funcs:
             feat.user_funcs = funcs
         q = draw(queries(sch, feat, fuel_range=(2, 3), extra_md=fmd if use_funcs else ()))
         uses = q.uses or [(sch.colls[0].accessor, sch.colls[0].banks[0])]
-        evs = draw(events_strategy(sch, uses, n_min=5, n_max=8, null_links=False, min_size=1))
+        # mostly events that hold at least one element per collection (First() is then defined); one case in four admits empty collections:
+        # an event on which the query is undefined ends the job there, and must do so whatever came before it
+        evs = draw(events_strategy(sch, uses, n_min=5, n_max=8, null_links=False, min_size=draw(st.sampled_from([1, 1, 1, 0]))))
         n = len(evs)
         perms = [draw(st.permutations(list(range(n)))) for _ in range(2)]
         cut = draw(st.integers(1, n - 1))
@@ -54,13 +82,14 @@ def case_strategy(backend):
     return cases()
 
 
-def rows_by_event(out):
-    d = {}
-    for e in out["events"]:
-        if e["fault"] is not None or e["status_failure"]:
-            raise Discard("faulting event (outside C05's fault-free domain)")
-        d.setdefault(e["id"], []).append(jdump(e["rows"]))
-    return d
+FAULT = "<event faults: the job ends here>"
+
+
+def outcome_of(e) -> str:
+    """what an event did: its rows, or the fact that it ended the job"""
+    if e["fault"] is not None or e["status_failure"]:
+        return FAULT
+    return jdump(e["rows"])
 
 
 def check(text, backend, evs, perms, cut, labels=()):
@@ -76,35 +105,38 @@ def check(text, backend, evs, perms, cut, labels=()):
         evf = os.path.join(comp.workdir, "events.txt")
         write_events(evs, evf)
         n = len(evs)
-        base = cxx.run_job(comp.exe, evf, list(range(n)))
-        if base.get("crashed") or base.get("aborted"):
-            raise Discard("faulting event (outside C05's fault-free domain)")
-        ref = rows_by_event(base)
-        ref = {k: v[0] for k, v in ref.items()}
-        ids = [e.id for e in evs]
-        schedules = [("perm", list(p)) for p in perms]
+        # reference: every event alone in a fresh process.  An event on which the query is undefined (First() of nothing) ends a real job:
+        # in a longer schedule the stand-in driver stops there and the remaining events go to a fresh process (run_job_resume), so
+        # whatever the dead job left behind is - as in reality - never seen.
+        ref = {}
+        for i in range(n):
+            out = cxx.run_job(comp.exe, evf, [i])
+            if out.get("crashed"):
+                raise Discard("the job crashes on one event alone (C02 / C04's business)")
+            if len(out["events"]) != 1:
+                raise Discard("driver did not report the event")
+            ref[out["events"][0]["id"]] = outcome_of(out["events"][0])
+        n_fault = sum(1 for v in ref.values() if v == FAULT)
+        schedules = [("file-order", list(range(n)))] + [("perm", list(p)) for p in perms]
         schedules.append(("twice", list(range(n)) + list(range(n))))
         schedules.append(("reversed", list(reversed(range(n)))))
-        multi = [("alone", [[i] for i in range(n)]), ("split", [list(range(cut)), list(range(cut, n))])]
+        schedules.append(("split-1", list(range(cut))))
+        schedules.append(("split-2", list(range(cut, n))))
         for name, sched in schedules:
-            out = cxx.run_job(comp.exe, evf, sched)
-            if out.get("crashed") or out.get("aborted"):
-                raise Violation("fault-in-schedule", f"schedule {name} {sched}: job failed ({out.get('crashed')}) though every event alone is fine", rep)
+            out = cxx.run_job_resume(comp.exe, evf, n, sched)
+            if out.get("crashed"):
+                raise Violation("fault-in-schedule", f"schedule {name} {sched}: job crashed ({out.get('crashed')}) though every event alone is fine", rep)
+            if len(out["events"]) != len(sched):
+                raise Violation("fault-in-schedule", f"schedule {name} {sched}: {len(out['events'])} of {len(sched)} events were processed", rep)
             for e in out["events"]:
-                if jdump(e["rows"]) != ref[e["id"]]:
-                    raise Violation("order-dependence", f"schedule {name} {sched}: event {e['id']} wrote {e['rows']} but in file order it wrote {ref[e['id']]}", rep)
-        for name, parts in multi:
-            for sched in parts:
-                out = cxx.run_job(comp.exe, evf, sched)
-                if out.get("crashed") or out.get("aborted"):
-                    raise Violation("fault-in-schedule", f"schedule {name} {sched}: job failed", rep)
-                for e in out["events"]:
-                    if jdump(e["rows"]) != ref[e["id"]]:
-                        raise Violation("history-dependence", f"{name} {sched}: event {e['id']} wrote {e['rows']} but after the preceding events it wrote {ref[e['id']]}", rep)
+                got = outcome_of(e)
+                if got != ref[e["id"]]:
+                    key = "order-dependence" if name in ("perm", "reversed", "file-order") else "history-dependence"
+                    raise Violation(key, f"schedule {name} {sched}: event {e['id']} -> {got} but alone in a fresh process -> {ref[e['id']]}", rep)
         src = pkg.files.get("query.cxx") or pkg.files.get("Analyzer.cc")
         stateful = any(t in src for t in ("push_back", "aggResult", "is_first"))
         distinct_rows = len(set(ref.values()))
-        return stateful, distinct_rows
+        return stateful, distinct_rows, n_fault
     finally:
         comp.cleanup()
 
@@ -122,10 +154,10 @@ def worker(payload):
         q, evs, perms, cut = case
         for k, v in q.excluded.items():
             stats.excluded[k] += v
-        stateful, distinct_rows = check(q.text, backend, evs, perms, cut, q.labels)
+        stateful, distinct_rows, n_fault = check(q.text, backend, evs, perms, cut, q.labels)
         nonid = sum(1 for p in perms if list(p) != list(range(len(evs)))) + 4
         nt = stateful and distinct_rows >= 3 and nonid >= 2
-        labels = sorted(q.labels) + [f"backend={backend}"] + (["stateful-code"] if stateful else [])
+        labels = sorted(q.labels) + [f"backend={backend}"] + (["stateful-code"] if stateful else []) + (["some-event-ends-the-job"] if n_fault else [])
         stats.case(q.text, nt, labels, {"backend": backend, "query": q.text[-400:], "n_events": len(evs), "schedules": ["identity", "2 permutations", "reversed", "twice", "each alone", f"split at {cut}"]})
 
     hyp_search(body, case_strategy(backend), max_examples=n, seed=seed, stats=stats, deadline=deadline, key_fn=case_key, shrink_budget=40)
